@@ -50,6 +50,12 @@ type c16Case struct {
 	// characters that mean something to a formatter
 	Sender    string `json:"sender,omitempty"`
 	RcptLocal string `json:"rcpt_local,omitempty"`
+	// Frag > 0: the server's replies reach the client in segments of at most
+	// Frag octets (a network may deliver a reply octet by octet)
+	Frag int `json:"frag,omitempty"`
+	// Sync: the transport buffers nothing (a Write returns when the peer has
+	// read it, as on net.Pipe)
+	Sync bool `json:"sync,omitempty"`
 }
 
 // c16Normalise is the reference: bare LF becomes CRLF and a final CRLF is
@@ -85,7 +91,7 @@ func c16Run(c c16Case) Verdict {
 		script.Rcpt = append(script.Rcpt, d)
 	}
 	script.Data = []harness.DataPlan{{Read: harness.ReadPlan{Limit: -1}, Result: c.Verdict, Honest: true}}
-	cfg := harness.Config{LMTP: c.LMTP}
+	cfg := harness.Config{LMTP: c.LMTP, FragmentReplies: c.Frag, Synchronous: c.Sync}
 	if c.Limited {
 		cfg.MaxMessageBytes = int64(len(c16Normalise(c.Body)) + c.LimitSlack)
 	}
@@ -236,6 +242,9 @@ func c16Run(c c16Case) Verdict {
 	}
 	if len(c.Splits) > 0 {
 		v.Classes = append(v.Classes, "multiple_writes")
+	}
+	if c.Sync {
+		v.Classes = append(v.Classes, "unbuffered_transport")
 	}
 	if len(c.Body) > 4096 && maxStretch(c.Body) > 900 {
 		v.Classes = append(v.Classes, "long_lines_across_a_flush_of_the_client")
@@ -444,6 +453,8 @@ func c16Gen(t *rapid.T) c16Case {
 		c.Sender = rapid.SampledFrom([]string{"user%example.net@relay", "a%%b@x", "100%@x", "%s@x", "a%20b@x", "%d%v@x", "u+tag=x@d", "first.last@x", "a!#$&'*/?^_`{|}~z@q"}).Draw(t, "sender")
 		c.RcptLocal = rapid.SampledFrom([]string{"r", "r%", "%%r", "x%example.net%", "r+%s=", "r%!"}).Draw(t, "rcpt_local")
 	}
+	c.Frag = rapid.SampledFrom([]int{0, 0, 0, 1, 5}).Draw(t, "frag")
+	c.Sync = rapid.IntRange(0, 5).Draw(t, "sync") == 0
 	return c
 }
 
